@@ -85,7 +85,11 @@ pub fn run(ctx: &Ctx) -> i32 {
     let fam = "product";
     ctx.family(fam, rows.len() as u64 * per_row, &format!("pixel format x3, tile size {:?}^2, tile count {:?}, canvas {{2tw, 2tw+1, 1}} x {{2th, 2th-1, 1}}, stored map {{1,2,3}}^2, tile offset {{-3..3}}^2 (pixel offset = tile offset x tile size), tile-word pattern {{ascending, max id, zero, flip/rotate bits set}}, opacity pair x3; lookups at every (x,y) in [0,Wt+2)x[0,Ht+2) and at 2^31-1, 2^31, 2^32-1", tsizes, counts), true);
     let want = Want::all();
+    let run_product = ctx.wants_family(fam);
     rows.par_iter().for_each(|(fi, tw, th, n, cwi, chi)| {
+        if !run_product {
+            return;
+        }
         let fmt = &fmts[*fi];
         let cw = [tw * 2, tw * 2 + 1, 1][*cwi];
         let ch = [th * 2, (th * 2 - 1).max(1), 1][*chi];
